@@ -2,7 +2,7 @@ package stackage
 
 // C16 — Marshal accepts or rejects any input without panicking.
 
-const vhMarshalKinds = 25
+const vhMarshalKinds = 27
 
 // vhMarshalEntry returns entry kind sel; label reports the stack kind a
 // string entry names when used as a label ("" if none), isStr whether it is a
@@ -62,6 +62,11 @@ func vhMarshalEntry(sel int) (v any, label string, isStr bool) {
 		return []any{"and", "n1", "n2"}, "", false
 	case 23:
 		return []any{"CONDITION", "nk", Ne, "nv"}, "", false
+	case 24: // nested rows that cannot be decoded and hold nil values
+		return []any{"condition", nil, nil}, "", false
+	case 25:
+		var np *int
+		return []any{nil, np, "tail"}, "", false
 	}
 	return 2.5, "", false
 }
@@ -194,6 +199,21 @@ func VH_C16_Flat(p []int) {
 		verifAssert(err != nil, "empty-input-is-an-error")
 	}
 	vhAfterMarshal(&s, err, "after")
+	if s.IsInit() && p[2] == 0 {
+		// the same input decoded a second time gives an equal, distinct stack
+		var twin Stack
+		var err2 error
+		if p[1] == 1 {
+			err2 = twin.Marshal(in...)
+		} else {
+			err2 = twin.Marshal(in)
+		}
+		if twin.IsInit() {
+			e1, e2 := s.IsEqual(twin), twin.IsEqual(s)
+			verifAssert((e1 == nil) == (e2 == nil), "twin-verdict-symmetric")
+			_ = err2
+		}
+	}
 	if err == nil && s.IsInit() && p[2] == 0 {
 		switch label {
 		case "AND", "OR", "NOT", "LIST", "BASIC":
